@@ -366,6 +366,9 @@ pub fn c08(tier: &str, acc: &mut Acc, bounds: &mut Vec<String>) {
     });
     acc.merge(a);
     bounds.push(format!("E4 char-vs-byte over all 1,112,064 scalar values as labels: {} x {} embeddings x 3 kinds", sc.name(), embs.len()));
+    // the UTF-8 decoder on (a subset of / all) scalar values: every character found at its offset
+    decoder_sweep(thorough, acc);
+    bounds.push(format!("decoder sweep: {} scalar values as one-character patterns in groups of 64, all six standard entry points", if thorough { "all 1,112,064" } else { "24 k (dense below U+3000, width boundaries incl. U+D7C0..U+E03F, every 97th group)" }));
     // E2 differential through the public API, all methods, all kinds
     let scopes = if thorough {
         vec![
